@@ -506,6 +506,13 @@ func (e *Exec) enterLoopHeader(st *State, fr *Frame, lp *Loop) bool {
 		useCut = true // automatic cut with the range-index bounds only
 	}
 	if !useCut {
+		for _, in := range lp.header.Instrs {
+			if _, isNext := in.(*ssa.Next); isNext {
+				useCut = true // map iteration: always a cut (order and length are symbolic)
+			}
+		}
+	}
+	if !useCut {
 		if fromInside {
 			fr.visits[hdr]++
 			if fr.visits[hdr] > unrollLimit {
